@@ -1331,3 +1331,100 @@ class DimKind(AbsInt):
         if meth in ('to_numpy', 'copy', 'astype', 'tolist', 'ravel') and recv == 'DATA':
             return 'DATA'
         return None
+
+
+# ============================================================================= dependence sets
+class DepKind(AbsInt):
+    """Which inputs (parameters, attributes of self) a value depends on by data flow: frozenset of source names."""
+    MAX_DEPTH = 4
+
+    def const(self, node, fr):
+        return frozenset()
+
+    def param(self, name, fr):
+        v = fr.params.get(name)
+        if isinstance(v, frozenset):
+            return v
+        return frozenset({'param:' + name})
+
+    def self_attr(self, attr, node, fr):
+        return frozenset({'self.' + attr})
+
+    def global_name(self, dotted, node, fr):
+        return frozenset()
+
+    def join(self, a, b):
+        if isinstance(a, frozenset) and isinstance(b, frozenset):
+            return a | b
+        return super().join(a, b)
+
+    def join_distinct(self, a, b):
+        return TOP
+
+    def _u(self, vals):
+        out = frozenset()
+        for v in vals:
+            if isinstance(v, frozenset):
+                out |= v
+            elif isinstance(v, Tup):
+                out |= self._u(v.elems)
+            elif v is TOP:
+                out |= frozenset({'?'})
+        return out
+
+    def binop(self, node, l, r, fr):
+        return self._u([l, r])
+
+    def unaryop(self, node, v, fr):
+        return self._u([v])
+
+    def compare(self, node, fr):
+        return self._u([self.value(node.left, fr)] + [self.value(c, fr) for c in node.comparators])
+
+    def boolop(self, node, vals, fr):
+        return self._u(vals)
+
+    def subscript(self, node, base, fr):
+        if isinstance(base, Tup):
+            from .model import const_value
+            i = const_value(node.slice)
+            if isinstance(i, int) and -len(base.elems) <= i < len(base.elems):
+                return base.elems[i]
+        return self._u([base])
+
+    def attribute(self, node, base, fr):
+        return self._u([base])
+
+    def sequence(self, node, vals, fr):
+        return Tup(vals)
+
+    def unpack(self, val, index, total, node, fr):
+        if isinstance(val, Tup) and len(val.elems) == total:
+            return val.elems[index]
+        return self._u([val])
+
+    def external_call(self, name, node, fr):
+        vals = [self.value(a, fr) for a in node.args] + [self.value(k.value, fr) for k in node.keywords]
+        if isinstance(node.func, ast.Attribute):
+            vals.append(self.value(node.func.value, fr))
+        return self._u(vals)
+
+    def method_call(self, meth, node, recv, fr):
+        return self._u([recv] + [self.value(a, fr) for a in node.args])
+
+    def local_call(self, name, node, fr):
+        return self._u([self.value(a, fr) for a in node.args])
+
+    def local_function(self, node, fr):
+        return frozenset()
+
+    def lambda_(self, node, fr):
+        return frozenset()
+
+    def comprehension(self, node, fr):
+        return self._u([self.value(node.elt, fr)] + [self.value(g.iter, fr) for g in node.generators]) if hasattr(node, 'elt') else frozenset({'?'})
+
+    def _value(self, e, fr):
+        if isinstance(e, ast.IfExp):
+            return self._u([self.value(e.test, fr), self.value(e.body, fr), self.value(e.orelse, fr)])
+        return super()._value(e, fr)
